@@ -161,6 +161,15 @@ def Quartet.canon (q : Quartet) : List Nat := [min q.t1 q.t2, max q.t1 q.t2, min
 /-- a list of quartets as a sorted list of canonical forms (= as a multiset) -/
 def sortQs (l : List Quartet) : List (List Nat) := (l.map Quartet.canon).mergeSort fun a b => decide (a ≤ b)
 
+/-- a quartet as such: the two unordered pairs, whichever is called "left" -/
+def Quartet.canonU (q : Quartet) : List Nat :=
+  let a := [min q.t1 q.t2, max q.t1 q.t2]
+  let b := [min q.t3 q.t4, max q.t3 q.t4]
+  if a ≤ b then a ++ b else b ++ a
+
+/-- a list of quartets as a multiset of quartets (orientation-free) -/
+def sortQsU (l : List Quartet) : List (List Nat) := (l.map Quartet.canonU).mergeSort fun a b => decide (a ≤ b)
+
 /- What `Quartets` must deliver, read off the tree without any bookkeeping of "left" lists or
    neighbour order: for every branch x—y whose two ends have at least three neighbours,
    * non specific: two tips not below the branch, two tips below it;
